@@ -195,19 +195,31 @@ class Sandbox:
             # caller undoes the patches and keeps whatever was printed so far: everything
             # that was pushed since this execution began (it may have started further
             # executions inside itself), and nothing of what was there before.
-            while len(self._current_patches) > patch_depth:
-                self._stop_patches()
-            recent_context = len(self._context) - 1
-            while len(self._current_stdout) > stdout_depth:
-                current_stdout = self._current_stdout.pop()
-                if recent_context >= 0:
-                    self.append_output(current_stdout.getvalue(), self._context[recent_context])
-                    recent_context -= 1
+            self._unwind_abandoned_execution(patch_depth, stdout_depth)
             self._capture_exception(timeout_exception, sys.exc_info(),
                                     code, filename)
             # The abandoned thread recorded its context but will never count it
             self._next_context_id = len(self._context)
             return self
+        except BaseException:
+            # The wait itself was interrupted (e.g. KeyboardInterrupt while the student code was
+            # running): not ours to report, but timeout() has abandoned the thread, which will
+            # not clean up after itself either
+            self._unwind_abandoned_execution(patch_depth, stdout_depth)
+            self._next_context_id = len(self._context)
+            raise
+
+    def _unwind_abandoned_execution(self, patch_depth, stdout_depth):
+        """ Undo the patches and collect the output of everything that was started since the
+        given depths of the two stacks. """
+        while len(self._current_patches) > patch_depth:
+            self._stop_patches()
+        recent_context = len(self._context) - 1
+        while len(self._current_stdout) > stdout_depth:
+            current_stdout = self._current_stdout.pop()
+            if recent_context >= 0:
+                self.append_output(current_stdout.getvalue(), self._context[recent_context])
+                recent_context -= 1
 
     def _execute(self, code, filename, kind, threaded, **meta):
         # Handle any threading if necessary
